@@ -632,64 +632,72 @@ pub const API_STREAM: u8 = 4;
 pub const API_REPLACE: u8 = 5;
 pub const API_IS_MATCH: u8 = 6;
 
-/// Fallible APIs: `Err` iff the predicate holds; never a panic; a constructed
-/// iterator never fails later (two `next()` calls).
+/// One fallible API: `Err` iff the predicate holds; never a panic; a
+/// constructed iterator never fails later (one `next()` call).
 #[cfg(kani)]
-pub fn reject_fallible<C: Case, const N: usize>(ac: &AhoCorasick) {
+pub fn reject_fallible<C: Case, const N: usize, const API: u8>(ac: &AhoCorasick) {
     let hay: [u8; N] = any();
     let an: bool = any();
     let has_empty = C::NPATS > 0 && C::MINLEN == 0;
     let inp = Input::new(&hay[..]).anchored(anch(an));
-    let r = ac.try_find(inp.clone());
-    assert!(r.is_err() == rejected(C::SK, C::MK, has_empty, an, API_FIND), "try_find rejection differs from the rule");
-    core::mem::forget(r);
-    let r = ac.try_find_iter(inp.clone());
-    assert!(r.is_err() == rejected(C::SK, C::MK, has_empty, an, API_ITER), "try_find_iter rejection differs from the rule");
-    if let Ok(mut it) = r {
-        let _ = it.next();
-        let _ = it.next();
-        core::mem::forget(it);
-    } else {
-        core::mem::forget(r);
-    }
-    let mut st = OverlappingState::start();
-    let r = ac.try_find_overlapping(inp.clone(), &mut st);
-    assert!(r.is_err() == rejected(C::SK, C::MK, has_empty, an, API_OVERLAPPING), "try_find_overlapping rejection differs from the rule");
-    core::mem::forget(r);
-    let r = ac.try_find_overlapping_iter(inp.clone());
-    assert!(r.is_err() == rejected(C::SK, C::MK, has_empty, an, API_OVERLAPPING_ITER), "try_find_overlapping_iter rejection differs from the rule");
-    if let Ok(mut it) = r {
-        let _ = it.next();
-        let _ = it.next();
-        core::mem::forget(it);
-    } else {
-        core::mem::forget(r);
+    let want = rejected(C::SK, C::MK, has_empty, an, API);
+    match API {
+        API_FIND => {
+            let r = ac.try_find(inp);
+            assert!(r.is_err() == want, "try_find rejection differs from the rule");
+            core::mem::forget(r);
+        }
+        API_ITER => {
+            let r = ac.try_find_iter(inp);
+            assert!(r.is_err() == want, "try_find_iter rejection differs from the rule");
+            if let Ok(mut it) = r {
+                let _ = it.next();
+                core::mem::forget(it);
+            } else {
+                core::mem::forget(r);
+            }
+        }
+        API_OVERLAPPING => {
+            let mut st = OverlappingState::start();
+            let r = ac.try_find_overlapping(inp, &mut st);
+            assert!(r.is_err() == want, "try_find_overlapping rejection differs from the rule");
+            core::mem::forget(r);
+        }
+        _ => {
+            let r = ac.try_find_overlapping_iter(inp);
+            assert!(r.is_err() == want, "try_find_overlapping_iter rejection differs from the rule");
+            if let Ok(mut it) = r {
+                let _ = it.next();
+                core::mem::forget(it);
+            } else {
+                core::mem::forget(r);
+            }
+        }
     }
     cover!(an, "anchored request");
     cover!(!an, "unanchored request");
 }
 
-/// Stream and replace entry points (always unanchored requests).
+/// Stream entry point (always an unanchored request): the constructor's
+/// verdict. (What a constructed stream iterator yields is C07's subject.)
 #[cfg(kani)]
-pub fn reject_stream_replace<C: Case, const N: usize>(ac: &AhoCorasick) {
+pub fn reject_stream<C: Case>(ac: &AhoCorasick) {
     aho_corasick::verif::buffer::set_spare_capacity(Some(1));
-    let hay: [u8; N] = any();
+    let hay: [u8; 1] = any();
     let has_empty = C::NPATS > 0 && C::MINLEN == 0;
     let r = ac.try_stream_find_iter(&hay[..]);
     assert!(r.is_err() == rejected(C::SK, C::MK, has_empty, false, API_STREAM), "try_stream_find_iter rejection differs from the rule");
-    if let Ok(mut it) = r {
-        if let Some(x) = it.next() {
-            assert!(x.is_ok(), "stream iterator fails after construction");
-            core::mem::forget(x);
-        }
-        core::mem::forget(it);
-    } else {
-        core::mem::forget(r);
-    }
-    // replacement table of the right length; the haystack is empty so that
-    // only the acceptance decision is exercised here (C12 decides the output)
+    core::mem::forget(r);
+}
+
+/// Replace entry point (always an unanchored request) on an empty haystack:
+/// only the acceptance decision is exercised here (C12 decides the output).
+#[cfg(kani)]
+pub fn reject_replace<C: Case>(ac: &AhoCorasick) {
+    let has_empty = C::NPATS > 0 && C::MINLEN == 0;
+    let hay: [u8; 0] = [];
     let mut dst: Vec<u8> = Vec::new();
-    let r = ac.try_replace_all_with_bytes(&hay[..0], &mut dst, |_, _, _| true);
+    let r = ac.try_replace_all_with_bytes(&hay[..], &mut dst, |_, _, _| true);
     assert!(r.is_err() == rejected(C::SK, C::MK, has_empty, false, API_REPLACE), "try_replace_all_with_bytes rejection differs from the rule");
     core::mem::forget(r);
     core::mem::forget(dst);
@@ -715,7 +723,6 @@ pub fn reject_infallible<C: Case, const N: usize, const API: u8, const REJ: bool
         API_ITER => {
             let mut it = ac.find_iter(inp);
             let _ = it.next();
-            let _ = it.next();
             core::mem::forget(it);
         }
         API_OVERLAPPING => {
@@ -724,7 +731,6 @@ pub fn reject_infallible<C: Case, const N: usize, const API: u8, const REJ: bool
         }
         _ => {
             let mut it = ac.find_overlapping_iter(inp);
-            let _ = it.next();
             let _ = it.next();
             core::mem::forget(it);
         }
@@ -1451,4 +1457,54 @@ pub fn fail_depth<C: Case, const LO: usize, const HI: usize>() {
     }
     cover!(!is_start_or_sentinel && fdepth + 1 < depth, "a failure link that skips more than one level");
     core::mem::forget(n);
+}
+
+// ---------------------------------------------------------------------------
+// Top-level `AhoCorasick` wrappers vs the low-level automaton (C04, C14)
+
+/// `AhoCorasick::{is_match, find, try_find}` agree with existence and with
+/// the definition (symbolic span, anchoring supported by the start kind).
+#[cfg(kani)]
+pub fn ac_ismatch<C: Case, const N: usize>(ac: &AhoCorasick) {
+    let hay: [u8; N] = any();
+    let (s, e) = any_span(N);
+    let an: bool = any();
+    assume(!rejected(C::SK, C::MK, false, an, API_FIND));
+    let inp = Input::new(&hay[..]).span(s..e).anchored(anch(an));
+    let im = ac.is_match(inp.clone());
+    let f = ac.find(inp.clone());
+    let ex = oracle::exists(C::pats(), &hay[..], s, e, an, C::CI);
+    assert!(im == ex, "AhoCorasick::is_match disagrees with the existence of an occurrence");
+    assert!(f.is_some() == ex, "AhoCorasick::find disagrees with the existence of an occurrence");
+    let want = oracle::find(C::pats(), &hay[..], s, e, C::MK, an, C::CI);
+    assert!(same(f, want), "AhoCorasick::find differs from the definition");
+    cover!(im, "is_match is true");
+    cover!(!im, "is_match is false");
+    cover!(s == e, "an empty span");
+}
+
+/// `AhoCorasick::{find_iter, find_overlapping}` vs the definition (first two
+/// items), through the `Arc<dyn AcAutomaton>` dispatch.
+#[cfg(kani)]
+pub fn ac_iter<C: Case, const N: usize>(ac: &AhoCorasick) {
+    let hay: [u8; N] = any();
+    let (s, e) = any_span(N);
+    let inp = Input::new(&hay[..]).span(s..e);
+    let mut it = ac.find_iter(inp.clone());
+    let g1 = it.next();
+    let w1 = oracle::iter_next(C::pats(), &hay[..], s, e, None, C::MK, false, C::CI);
+    assert!(same(g1, w1), "AhoCorasick::find_iter first item differs from the definition");
+    if let Some((_, _, e1)) = w1 {
+        let g2 = it.next();
+        let w2 = oracle::iter_next(C::pats(), &hay[..], e1, e, Some(e1), C::MK, false, C::CI);
+        assert!(same(g2, w2), "AhoCorasick::find_iter second item differs from the definition");
+    }
+    core::mem::forget(it);
+    if C::MK == 0 {
+        let mut st = OverlappingState::start();
+        ac.find_overlapping(inp.clone(), &mut st);
+        let w = oracle::first_ending_from(C::pats(), &hay[..], s, e, s, false, C::CI);
+        assert!(same(st.get_match(), w), "AhoCorasick::find_overlapping first match differs from the definition");
+    }
+    cover!(g1.is_some(), "an item");
 }
